@@ -276,7 +276,7 @@ package builder
 
 //@ func (p *parser) read()
 //@   requires [ctx] Ctx0(p)
-//@   requires [not-eof C01 C02 C17] IsInitPt(p.pt) || (SP(p.data, p.pt) && p.pt.w > 0)
+//@   requires [not-eof C01 C02 C17 C07] IsInitPt(p.pt) || (SP(p.data, p.pt) && p.pt.w > 0)
 //@   modifies p.pt, *p.errs
 //@   ensures [sp C02 C17] SP(p.data, p.pt)
 //@   ensures [advance C01 C02 C17] p.pt.offset == old(p.pt.offset) + old(p.pt.w)
@@ -889,6 +889,10 @@ package builder
 //@ func ParseReader(filename string, r io.Reader, opts []Option) (val any, err error)
 //@   modifies all Stats.ExprCnt, all map[string]any, all storeDict, PSdbg0, PSmemo0, PSstate0
 //@   all-calls io.ReadAll [read-error-returned C11] rerr != nil ==> err == rerr && val == nil
+// the parser runs on exactly the bytes that were read (C02: offsets, lines and columns are those of the caller's input;
+// C17: matched values are the original bytes)
+//@   at "if err != nil {" ghost bytesRead = b
+//@   all-calls Parse [input-as-read C02 C17] b == bytesRead
 //@   panics [user] true
 //@   safety C11
 //@ func ParseFile(filename string, opts []Option) (i any, err error)
